@@ -1,4 +1,4 @@
-import TinodeVerif.Model.TopicChan
+import TinodeVerif.Model.TopicTags
 import TinodeVerif.Driver.Wire
 /-! Driver for the world stream (`TestVerifWorld`): one op per line, one output line per op, rendered exactly like the
 Go harness renders the real frames and state. -/
@@ -180,7 +180,10 @@ def step (st : WSt) (ws : List String) : Option (WSt × String) :=
           match op, rest with
           | "newgrp", _ =>
             let o : NewGrpOpts := { auth := optStr (kvGet m "auth"), anon := optStr (kvGet m "anon"), want := kvGet m "want", priv := privArg (kvGet m "priv"), pub := privArg (kvGet m "pub"), chan := kvGet m "chan" = "1" }
-            some (c0.opNewGrp a o)
+            let tagArg := kvGet m "tags"
+            (match newTopicTags (if tagArg = "" then [] else tagArg.splitOn ",") with
+              | .error _ => some (c0.emit a.sid (ctrl 403 (if o.chan then "?nch" else "?new")))
+              | .ok tags => some (c0.opNewGrp a { o with tags := tags }))
           | "sub", t :: _ =>
             if isUser t then some (c0.opSubP2P a t (optStr (kvGet m "mode")) (privArg (kvGet m "priv")) (kvGet m "user"))
             else if isChanT then some (c0.opSubC a t viaChn (optStr (kvGet m "mode")) (privArg (kvGet m "priv")) (kvGet m "user" ≠ ""))
@@ -198,6 +201,15 @@ def step (st : WSt) (ws : List String) : Option (WSt × String) :=
             if isUser t then (decInt seq).map (fun q => c0.opNoteP2P a t what q)
             else if isChanT then (decInt seq).map (fun q => c0.opNoteC a t viaChn what q)
             else (decInt seq).map (fun q => c0.opNote a t what q)
+          | "settags", t :: _ =>
+            let tn := if isUser t then p2pKey a.uid t else t
+            let tagArg := kvGet m "tags"
+            if isUser t ∧ t = a.uid then some (c0.emit a.sid (ctrl 403 tn)) else
+            some (c0.opSetTags a tn (if tagArg = "" then [] else tagArg.splitOn ",") (isUser t))
+          | "get", t :: "tags" :: _ =>
+            let tn := if isUser t then p2pKey a.uid t else t
+            if isUser t ∧ t = a.uid then some (c0.emit a.sid (ctrl 403 tn)) else
+            some (c0.opGetTags a tn (isUser t))
           | "get", t :: what :: _ =>
             let since := (decInt (kvGet m "since")).getD 0
             let before := (decInt (kvGet m "before")).getD 0
